@@ -174,6 +174,7 @@ class C13(Sim):
                 ti = rng.randrange(len(vs[vi]["terms"]))
                 old = vs[vi]["terms"][ti]
                 lo, hi = float(vs[vi]["min"]), float(vs[vi]["max"])
+                lo, hi = (lo if abs(lo) != float("inf") else -10.0), (hi if abs(hi) != float("inf") else 10.0)
                 names_in = [v["name"] for v in sp["inputs"]]
                 new_t = S.gen_term(rng, old["cls"], old["name"], lo, hi, names_in, [], old["cls"] == "Function" and "x" in old["args"].get("formula", ""))
                 if old["cls"] == "Function":
